@@ -120,7 +120,7 @@ def run(prog, rep, tier):
                     n += 1
                     rep.ob('R13.2', t.cmethod == 'write_all', 'R13.2|%s|inner-transfer|%s' % (body.nkey, t.cmethod),
                            'ciphertext / tag handed to the inner writer with write_all' if t.cmethod == 'write_all' else 'ciphertext handed to the inner writer with a raw write', body.loc(b.idx))
-    rep.floor('R13.2', n, 3, 'transfers of EncryptionLayerWriter to its inner writer')
+    rep.floor('R13.2', n, 1, 'transfers of EncryptionLayerWriter to its inner writer')
 
     # ---------------- R13.3 raw reads
     nr = 0
